@@ -19,6 +19,9 @@ const NOTMOD_BODIES = {
   unconfigured_methods: 'function f(a) { return a.toUpperCase().split(1).join(2) }',
   tpl_with_literal: 'function f(a) { return `${1}${a}` }',
   tagged_tpl: 'function f(a, t) { return t`x${a}y` }',
+  tpl_without_substitution: 'function f() { return `hello world` }',
+  tpl_multiline_constant: 'function f() { const q = `line one\nline two\n`; return q.length }',
+  tpl_constant_in_call: 'function f(h) { return h(`x`, `y`) }',
   minus: 'function f(a, b) { a -= b; return a - b * 2 }',
   literal_receiver: "function f() { return 'abc'.trim() + 'x' }".replace(" + 'x'", ''),
   empty: '',
@@ -95,6 +98,8 @@ module.exports = mk({
       if (!last.startsWith('//# sourceMappingURL=data:application/json;base64,')) v('modified-without-map', 'nomap', 'status modified but the last line is not an inline source map trailer: ' + last.slice(0, 80))
       else { try { const j = JSON.parse(Buffer.from(last.slice(last.indexOf('base64,') + 7), 'base64').toString('utf8')); if (j.version !== 3) v('modified-bad-map', 'version', 'embedded map is not version 3') } catch (e) { v('modified-bad-map', 'json', 'embedded map does not decode: ' + e.message) } }
     } else v('status-string', String(m.status), 'unexpected status ' + m.status)
+    // generator-known: the bodies of the `notmod` family hold nothing that any configuration instruments
+    if (leaf.fam === 'notmod' && m.status !== 'notmodified') v('modified-without-enabled-operation', String(leaf.key).split('¦')[1], `the input holds no operation to instrument but the file is reported ${m.status} (${hooks} hook call(s) in the content)`)
     if (leaf.config === 'NOTHING' && m.status !== 'notmodified') v('modified-with-empty-method-list', 'nothing', 'empty method list but status is ' + m.status)
     // the requirement function: any REQUIRED operation => must be modified
     if (a.reqs && m.status === 'notmodified' && a.reqs.some((q) => q.must === 'REQUIRED')) v('notmodified-with-required-operation', a.reqs.find((q) => q.must === 'REQUIRED').kind, 'input contains an operation that must be instrumented but the file is reported not modified')
